@@ -114,7 +114,7 @@ func checkC13(c *Ctx) *core.Result {
 	inlineX1 := func(callee *ssa.Function, depth int) bool {
 		return p.InModule(callee) && callee != ctx && depth <= 2 && len(callee.Blocks) <= 40
 	}
-	paths, err := ssax.EnumerateTraces(root, inlineX1, 500)
+	paths, err := ssax.EnumerateTracesWith(root, inlineX1, 500, traceConsts(p))
 	loopForm := false
 	if err != nil {
 		// not a straight-line disjunction: accept the loop over a constant list of contexts
